@@ -93,6 +93,16 @@ def gen_wrap_consts(repo):
     tstop = bool(re.search(r"let mut truncated = false;", tbody)) and bool(re.search(r"if truncated \{\s*continue;\s*\}", tbody)) \
         and bool(re.search(r"truncated = true;\s*break;", tbody))
     _need(re.search(r"if used \+ width_of_grapheme > display_width \{", tbody), "truncate_str_impl cut test")
+    # the arm for a cluster wider than 2 columns that does not fit: with or without the debug_assert!, then the fallback
+    tbn = re.sub(r"\s+", " ", re.sub(r"//.*", "", tbody))
+    wide_fallback = "for _ in 0..display_width.saturating_sub(used) { result.push(fillchar); } }"
+    wide_head = "if width_of_grapheme == 2 && used < display_width { result.push(fillchar); } else if width_of_grapheme > 2 { "
+    if wide_head + wide_fallback in tbn:
+        tassert = False
+    else:
+        _need((wide_head + 'debug_assert!(width_of_grapheme <= 2, "strange grapheme width"); ' + wide_fallback) in tbn or None,
+              "truncate_str_impl arm for a cluster wider than 2 columns")
+        tassert = True
 
     out = "-- GENERATED by /verif/tools/extractors/wrap.py from /repo/src — do not edit.\n"
     out += "namespace Generated\n\n"
@@ -117,6 +127,10 @@ def gen_wrap_consts(repo):
     out += "def wrapSymbolWidthChecked : Bool := %s\n" % b(sym_checked)
     out += "/-- `truncate_str_impl` stops adding text after the first grapheme that did not fit -/\n"
     out += "def wrapTruncStopsAfterCut : Bool := %s\n" % b(tstop)
+    out += ("/-- `truncate_str_impl`, a cluster wider than 2 columns that does not fit (fill character given): the\n"
+            "`debug_assert!(width_of_grapheme <= 2)` stands before the fallback `for _ in 0..display_width.saturating_sub(used)\n"
+            "{ result.push(fillchar) }` (true: a panic point of the dev profile; false since fix d6cf9d0) -/\n")
+    out += "def wrapTruncAssertsWideCluster : Bool := %s\n" % b(tassert)
     out += "\nend Generated\n"
     return out
 
